@@ -466,7 +466,11 @@ func checkApply(ctx *core.Ctx, ac applyCase) {
 func Run(ctx *core.Ctx) {
 	ctx.SetRule("rule strings from the header-rule grammar (plus a malformed stream) through ParseHeader/String; rule lists of length 0-8 " +
 		"over maps with repeated fields and case variants through Apply/ModifyRequest/ModifyResponse; a case is non-trivial when the parser accepted the rule, " +
-		"resp. when the list and the map are both non-empty; distinct = distinct canonical inputs")
+		"resp. when the list and the map are both non-empty; every rule kind (and short sequences meeting on one name) against the names the pipeline treats " +
+		"specially (User-Agent, Authorization with/without site credentials, Proxy-Authorization, Host, framing and hop-by-hop names, Via, X-Forwarded-*, " +
+		"Accept-Encoding, Cookie, Expect, ...; sender gives none / one / several lines) end to end through the in-process proxy and the real binary " +
+		"(requests direct / upstream / intercepted, responses, CONNECT headers), judged on the message the hop receives: non-trivial when the list of the side is non-empty; " +
+		"distinct = distinct canonical inputs")
 	// corpus first
 	for _, c := range core.LoadCorpus(ctx.Root, "C16") {
 		Replay(ctx, c)
@@ -498,6 +502,9 @@ func Run(ctx *core.Ctx) {
 			ctx.Sample(ac)
 		}
 	}
+	// every rule kind against the names the pipeline treats specially, end to end (in-process proxy and the
+	// real binary), judged on the message the next hop receives
+	runAllHops(ctx)
 	// wiring of the three lists to message kinds, through the real binary (all 8 on/off combinations)
 	runAllDispatch(ctx)
 }
@@ -521,6 +528,10 @@ func Replay(ctx *core.Ctx, raw json.RawMessage) {
 		var dc dispatchCase
 		json.Unmarshal(raw, &dc)
 		runDispatch(ctx, dc)
+	case "hop":
+		var hc hopCase
+		json.Unmarshal(raw, &hc)
+		replayHop(ctx, &hc)
 	default:
 		core.Fatalf("C16: unknown case kind %q", k.Kind)
 	}
